@@ -4,7 +4,7 @@ import json
 from pathlib import Path
 
 V = Path(__file__).resolve().parent.parent
-CLAIMED = json.loads((V / 'tools' / 'claims.json').read_text())
+CLAIMED = {f.stem: json.loads(f.read_text()) for f in sorted((V / 'tools' / 'claims').glob('C*.json'))}
 props = [json.loads(l) for l in (V / 'properties.jsonl').read_text().splitlines() if l.strip()]
 checks = []
 na = []
